@@ -855,7 +855,7 @@ pub fn tiny_streams(prop: &str, mode: &str, rep: &mut Report) {
             };
             let mut pr = prog.clone();
             if marker {
-                pr.push(Sym::Eos);
+                pr.push(if (pi + style) % 3 == 0 { Sym::Eosn { n: [5u32, 273, 18][pi % 3] } } else { Sym::Eos });
             }
             let enc = coding::encode_program(&pr, p);
             let mut data = lzma_header(p, 4096, field);
@@ -886,6 +886,42 @@ pub fn run_c05(prop: &str, seed: u64, nstreams: usize, nsyms: usize, trace_path:
     let mut trace: Option<Vec<String>> = trace_path.map(|_| vec![]);
     early_errors(prop, "c05", seed, rep, &mut trace);
     tiny_streams(prop, "c05", rep);
+    // several window lengths of output with a 4 KiB dictionary: what the decoder hands to the sink between writes
+    // and at each wrap of the circular window must add up to the one-shot output under every chunking
+    {
+        let props = Props { lc: 3, lp: 0, pb: 2 };
+        let mut prog: Vec<Sym> = vec![];
+        let mut total = 0usize;
+        let mut k = 0u32;
+        while total < 14000 {
+            if k % 7 == 6 {
+                let n = 2 + (k % 40);
+                prog.push(Sym::Match { d: 1 + (k as u64 % 900).min(total as u64 - 1), n });
+                total += n as usize;
+            } else {
+                prog.push(Sym::Lit { b: 0x30 + ((k * 11 + k / 17) % 75) as u8 });
+                total += 1;
+            }
+            k += 1;
+        }
+        prog.push(Sym::Eos);
+        let enc = coding::encode_program(&prog, props);
+        let mut data = lzma_header(props, 4096, Some(u64::MAX));
+        data.extend_from_slice(&enc.payload);
+        let one = api::lzma_bytes(&data, &api::options(Opt::ReadFromHeader, None, false));
+        let n = data.len();
+        let dh = hex(&data);
+        let mut cutsets: Vec<Vec<usize>> = vec![vec![], vec![n / 2], vec![n / 3, 2 * n / 3], (1..20).map(|i| i * n / 20).collect(), (0..n).step_by(97).collect(), (0..n).step_by(1000).collect()];
+        for _ in 0..6 {
+            let mut c: Vec<usize> = (0..rng.gen_range(2..9)).map(|_| rng.gen_range(0..n)).collect();
+            c.sort();
+            cutsets.push(c);
+        }
+        for cuts in cutsets {
+            let c = StreamCase { data_hex: dh.clone(), opt: Opt::ReadFromHeader, memlimit: None, allow_incomplete: false, cuts, origin: "window-wrap-stream".into(), mode: "c05".into(), extra_writes: vec![] };
+            check_against_oneshot(&c, &data, &one, prop, rep);
+        }
+    }
     // worst-case symbol: every cut position inside the most expensive symbol we can construct, and every
     // pair (cut, cut + k): the symbol is then completed through the partial input buffer
     for far in [false, true] {
